@@ -100,6 +100,8 @@ def c01(repo, col):
     M2.loop_error_discipline(repo, col)
     M2.file_accessor_hazards(repo, col)
     M2.axis_arg_family(repo, col, ["volume_reader"])
+    M2.declared_block_size(repo, col)     # codec state does not cross channels
+    SP.cseg_layout(repo, col)
     col.floor("E-TILE", 6)
     col.floor("E-AXIS", 22)
     col.floor("E-DTYPE.pair", 25)
@@ -423,6 +425,8 @@ def c13(repo, col):
     M.copy_info_handling(repo, col)
     M2.loop_error_discipline(repo, col)
     M2.shard_lifecycle(repo, col)
+    M2.declared_block_size(repo, col)
+    SP.cseg_layout(repo, col)
     M2.axis_arg_family(repo, col, ["scripts.convert_chunks"])
     col.floor("E-TILE", 6)
     col.floor("E-ORDER", 7)
@@ -580,6 +584,8 @@ def c19(repo, col):
     M.new_dataset_defaults(repo, col)
     M2.loop_error_discipline(repo, col)
     M2.file_accessor_hazards(repo, col)
+    O.flush_chain(repo, col)
+    O.exit_order(repo, col)
     S.io_pass_through(repo, col)
     scripts = [m.short for m in repo.modules.values()
                if m.short.startswith("scripts.") and m.short != "scripts"]
